@@ -79,7 +79,20 @@ def callback_families(g, rng):
             return None
         return n
 
-    return [identity, u1_to_v1, v1_to_str, b2_to_list, t3_with_meta, q5_without_meta, infix_to_prefix, rebuild, z0_to_none]
+    def wrap_v1(n):
+        # wraps (does not replace) what an earlier callback may have made: the wrapped object keeps
+        # whatever metadata it had when this callback saw it
+        if isinstance(n, g.V1):
+            return g.B2(n, 'wrapped')
+        return n
+
+    def wrap_b2_in_list(n):
+        if isinstance(n, g.B2):
+            return [n, g.Z0()]
+        return n
+
+    return [identity, u1_to_v1, v1_to_str, b2_to_list, t3_with_meta, q5_without_meta, infix_to_prefix, rebuild, z0_to_none,
+            wrap_v1, wrap_b2_in_list]
 
 
 def logged(g, cbs, log):
@@ -87,6 +100,10 @@ def logged(g, cbs, log):
     for i, cb in enumerate(cbs):
         def wrapper(node, i=i, cb=cb):
             log.append((i, type(node).__name__, forest._shape(g, node)))
+            # what the callback can see of the node's metadata (a replacement made by an earlier
+            # callback already stands for the node)
+            if isinstance(node, g.ParsedObject):
+                log.append(('meta', i, repr(sorted(node._metadata._fields.items()))))
             return cb(node)
         out.append(wrapper)
     return out
@@ -212,6 +229,7 @@ def metaparser_use(rec):
             rec.case()
             for node, callbacks, log_real, before, result in calls:
                 rec.count('metaparser_transforms')
+                log_real = [e for e in log_real if e[0] != 'meta']
                 rec.count('callback_invocations', len(log_real))
                 if forest.snapshot(gen0, node) != before:
                     rec.violation('transform:input-modified', 'metaparser tree snapshot', dict(kind='meta', origin=origin), 'untouched', 'changed')
